@@ -376,7 +376,8 @@ class C10(Prop):
         model = build_holstein(h)
         space = case["space"]
         x = complex(*case["x"])
-        xa = x if x.imag != 0 else x.real
+        # a real value is passed as float or as a complex-typed number with zero imaginary part (as -1j*(-1j*tau) is)
+        xa = x if (x.imag != 0 or case["rng"] % 2) else x.real
         shift = case["shift"]
         mats = local_h(model, h, space)
         prop = Mpo.exact_propagator(model, xa, space, shift)
@@ -387,7 +388,7 @@ class C10(Prop):
         sc = np.linalg.norm(ref, 2)
         r.check_close(f"propagator.{space}", got, ref, 1e-10 * sc, f"exact_propagator(x={xa}, space={space}, shift={shift}) vs dense expm of h_loc+shift")
         r.check("propagator.bond_dims", all(b == 1 for b in prop.bond_dims), f"bond dims {prop.bond_dims}")
-        r.check("propagator.dtype", bool(prop.is_complex) == bool(np.iscomplex(xa)), f"complex dtype {prop.is_complex} for x={xa}")
+        r.check("propagator.dtype", bool(prop.is_complex) == bool(x.imag != 0), f"complex dtype {prop.is_complex} for x={xa!r}")
         r.classes += [f"space.{space}", f"scheme{h['scheme']}", "x.complex" if x.imag != 0 and x.real != 0 else ("x.imag" if x.imag != 0 else "x.real")]
         r.nontrivial = abs(x) * max(np.linalg.norm(hl, 2), 1e-12) >= 0.05
 
